@@ -137,6 +137,9 @@ MkMachine(w, segs, data, input) ==
       ops |-> 0, status |-> "run", fault |-> <<>>, hist |-> <<>>,
       phase |-> "fetch", f |-> A(0), j |-> A(0) ]
 
+\* did the run execute an op that reaches beyond bit address 2^w (ip + 2w > 2^w)?  (classification of KF-1)
+TopOp(m) == \E i \in 1..Len(m.hist) : ~IsBelowPow2(AddSmall(m.hist[i], 2 * m.w - 1), m.w)
+
 TypeOK(m) ==
     /\ m.w \in {8, 16, 32, 64}
     /\ m.status \in {"run", "looping", "eof", "nullip", "memerr"}
